@@ -383,14 +383,18 @@ def check_trait_len(run, F):
                False, '', 'provided method not found')
         return 0
     fn = fn[0]
-    s = src(fn.hir)
+    import dtree
+    import nullrules as N
+    t = N.tbl(fn)
+    leaf = N.one_leaf(t)
+    # `self.size_hint().1.unwrap()`, however the pair is taken apart (unwrap is a coercion here)
     run.ob('TL.consumer', fn, 'TrustedLen::len reads the upper size hint',
-           s == 'self.size_hint().1.unwrap()', fn.loc(), 'body `%s`' % s)
+           leaf == 'self.size_hint().1', fn.loc(), 'table %s' % dtree.show(t))
     fe = [f for f in F.fns if f.crate == 'tea_core' and f.qpath.endswith('trusted::TrustedLen::is_empty')]
     if fe:
-        s2 = src(fe[0].hir)
-        run.ob('TL.consumer', fe[0], 'TrustedLen::is_empty', s2 == '(self.len() == 0)', fe[0].loc(),
-               'body `%s`' % s2)
+        t2 = N.tbl(fe[0])
+        run.ob('TL.consumer', fe[0], 'TrustedLen::is_empty', N.one_leaf(t2) in ('(0 == self.len())', 'self.len() is 0'),
+               fe[0].loc(), 'table %s' % dtree.show(t2))
     return 1
 
 
@@ -454,8 +458,9 @@ def check_write_trust_iter(run, F):
     if not r_ok:
         why.append('write loops %s' % [(st['kind'], st['range']) for st in sites])
     ok = r_ok
-    for L in range(5):
-        for I in range(5):
+    G = 9 if getattr(run, 'tier', 'quick') == 'thorough' else 5
+    for L in range(G):
+        for I in range(G):
             want_site = None if L == 0 else 'elementwise' if I == L else 'broadcast' if I == 1 else None
             want_leaf = 'Ok' if (L == 0 or I == L or I == 1) else 'Err'
             reached = []
